@@ -285,6 +285,13 @@ class Emit:
             raise Unsupported('struct literal %s' % e[1])
         if k == 'cmp':
             op, a, b = e[1], e[2], e[3]
+            def numeric(x):
+                return x[0] in ('int', 'add') or (x[0] == 'var' and x[1] in ('major', 'minor', 'patch', 'n', 'm', 'value', 'MAX_SAFE_INTEGER')) or \
+                       (x[0] == 'method' and x[2] == 'unwrap_or')
+            if numeric(a) or numeric(b):
+                x, y = self.expr(a), self.expr(b)
+                return {'<': '(%s <? %s)' % (x, y), '<=': '(%s <=? %s)' % (x, y), '>': '(%s <? %s)' % (y, x), '>=': '(%s <=? %s)' % (y, x),
+                        '==': '(%s =? %s)' % (x, y), '!=': '(negb (%s =? %s))' % (x, y)}[op]
             isb = (a[0] == 'var' and a[1] in self.bound_vars)
             x, y = self.expr(a), self.expr(b)
             if isb:
@@ -463,6 +470,14 @@ def drop_redundant(path, st):
         removed.append(lines[ln].strip()); del lines[ln]
         open(path, 'w').write('\n'.join(lines))
     if removed: st['unreachable_arms_dropped'] = removed
+    if r.returncode:
+        m = re.search(r'line (\d+), characters', r.stdout)
+        lines = open(path).read().split('\n')
+        thm = next((i for i, l in enumerate(lines) if l.startswith('Theorem ')), None)
+        if m and thm is not None and int(m.group(1)) - 1 < thm:
+            # the generated DEFINITION is not well-typed Gallina: a limitation of the translator, not a verdict about the source
+            st['status'] = 'unparsed'; st['reason'] = 'the generated definition does not type-check (translator limitation): ' + r.stdout[-300:].replace('\n', ' ')
+            return
     st['compiles'] = (r.returncode == 0)
     st['closed'] = 'Closed under the global context' in r.stdout
     if r.returncode: st['coq_error'] = r.stdout[-600:]
